@@ -111,6 +111,18 @@ func newIdxScenarioAt(ids []string, base []string) *idxScenario {
 	return sc
 }
 
+// newIdxScenarioCase: values that differ in letter case only (an index is keyed by the exact bytes).
+func newIdxScenarioCase(ids []string) *idxScenario {
+	sc := newIdxScenarioAt(ids, []string{"root"})
+	sc.names = []string{"A", "a", ""}
+	sc.aliases = []*string{nil, world.StrP("X"), world.StrP("x")}
+	sc.roleAtoms = []string{"R", "r"}
+	sc.roleSets = [][]string{nil, {"R"}, {"r"}, {"R", "r"}}
+	sc.ops = nil
+	sc.buildOps()
+	return sc
+}
+
 func (sc *idxScenario) Name() string { return fmt.Sprintf("S_idx[%d ids]", len(sc.ids)) }
 
 func (sc *idxScenario) InitDb(db *boltz.DbImpl) error {
@@ -487,6 +499,9 @@ func C03(tier string) int {
 		sc3 := newIdxScenario([]string{"e1", "e1x", "e2"})
 		runE1(rep, sc3, explore.Config{Programs: explore.SingleOps(len(sc3.Ops())), MaxTrans: 6_000_000})
 	}
+	// values differing in letter case only
+	scc := newIdxScenarioCase([]string{"e1", "e1x"})
+	runE1(rep, &renamed{Scenario: scc, name: "S_idx[2 ids, values differing in letter case only]"}, explore.Config{Programs: explore.SingleOps(len(scc.Ops()))})
 	// the store below a base path of three and four segments (index paths are derived from the base path)
 	for _, base := range [][]string{{"root", "dept", "unit"}, append(make([]string, 0, 8), "root", "a", "b", "c")} {
 		scd := newIdxScenarioAt([]string{"e1", "e1x"}, base)
